@@ -483,6 +483,165 @@ func (a *acc) result() runner.Result {
 	return r
 }
 
+// ---- encodings with JSON methods, and handlers that reuse their message after sending it ----
+
+// jmsg is a message with its own JSON form.
+type jmsg struct{ V string }
+
+type encBase struct{}
+
+func (encBase) Marshal(m drpc.Message) ([]byte, error) {
+	return append([]byte(nil), m.(*jmsg).V...), nil
+}
+func (encBase) Unmarshal(b []byte, m drpc.Message) error {
+	m.(*jmsg).V = string(b)
+	return nil
+}
+
+func jsonOf(m drpc.Message) ([]byte, error) { return []byte(`{"v":"` + m.(*jmsg).V + `"}`), nil }
+func jsonInto(b []byte, m drpc.Message) error {
+	var doc struct{ V string }
+	if err := json.Unmarshal(b, &doc); err != nil {
+		return err
+	}
+	m.(*jmsg).V = doc.V
+	return nil
+}
+
+type encBoth struct{ encBase }
+
+func (encBoth) JSONMarshal(m drpc.Message) ([]byte, error)   { return jsonOf(m) }
+func (encBoth) JSONUnmarshal(b []byte, m drpc.Message) error { return jsonInto(b, m) }
+
+type encMarshalOnly struct{ encBase }
+
+func (encMarshalOnly) JSONMarshal(m drpc.Message) ([]byte, error) { return jsonOf(m) }
+
+type encUnmarshalOnly struct{ encBase }
+
+func (encUnmarshalOnly) JSONUnmarshal(b []byte, m drpc.Message) error { return jsonInto(b, m) }
+
+// jsonEncodings: an encoding's JSONMarshal is used for responses when it exists and its JSONUnmarshal
+// for requests when it exists, each independently of the other; an echo handler sends k answers and then
+// wipes and reuses the message objects it sent (what is on the wire must be what they held when sent).
+func jsonEncodings(a *acc) {
+	type variant struct {
+		name   string
+		enc    drpc.Encoding
+		jm, ju bool
+	}
+	for _, v := range []variant{{"both", encBoth{}, true, true}, {"marshal-only", encMarshalOnly{}, true, false}, {"unmarshal-only", encUnmarshalOnly{}, false, true}, {"neither", encBase{}, false, false}} {
+		for _, ct := range append(append([]string{}, twirpCTs...), grpcCTs...) {
+			for _, scrub := range []bool{false, true} {
+				a.n++
+				v, ct, scrub := v, ct, scrub
+				nsend := 1
+				if isGrpc(ct) {
+					nsend = 3
+				}
+				var gotReq string
+				h := rig.HandlerFunc(func(stream drpc.Stream, rpc string) error {
+					var in jmsg
+					if err := stream.MsgRecv(&in, v.enc); err != nil {
+						return err
+					}
+					gotReq = in.V
+					out := &jmsg{}
+					for i := 0; i < nsend; i++ {
+						out.V = fmt.Sprintf("echo%d:%s", i, in.V)
+						if err := stream.MsgSend(out, v.enc); err != nil {
+							return err
+						}
+						if scrub {
+							out.V = "SCRUBBED" // the handler reuses its message object after the send returned
+						}
+					}
+					return nil
+				})
+				// request body
+				var reqBody []byte
+				switch {
+				case isJSON(ct) && v.ju:
+					reqBody = []byte(`{"v":"abc"}`)
+				case isJSON(ct):
+					reqBody, _ = json.Marshal([]byte("abc")) // the fallback: the marshalled bytes as a JSON (base64) string
+				default:
+					reqBody = []byte("abc")
+				}
+				body := reqBody
+				if isGrpc(ct) {
+					fr := make([]byte, 5, 5+len(body))
+					binary.BigEndian.PutUint32(fr[1:], uint32(len(body)))
+					body = append(fr, body...)
+					if isText(ct) {
+						body = []byte(base64.StdEncoding.EncodeToString(body))
+					}
+				}
+				req := httptest.NewRequest("POST", "/svc/M", bytes.NewReader(body))
+				if ct != "" {
+					req.Header.Set("Content-Type", ct)
+				}
+				rec := httptest.NewRecorder()
+				drpchttp.New(h).ServeHTTP(rec, req)
+				desc := fmt.Sprintf("encoding=%s ct=%q handler-reuses-its-message=%v", v.name, ct, scrub)
+				if gotReq != "abc" {
+					a.fail("json-encoding-request", "%s: the handler received %q, want %q (JSONUnmarshal of the encoding used iff it exists)", desc, gotReq, "abc")
+					continue
+				}
+				want := func(i int) []byte {
+					m := &jmsg{V: fmt.Sprintf("echo%d:abc", i)}
+					switch {
+					case isJSON(ct) && v.jm:
+						b, _ := jsonOf(m)
+						return b
+					case isJSON(ct):
+						b, _ := json.Marshal([]byte(m.V))
+						return b
+					}
+					return []byte(m.V)
+				}
+				got := rec.Body.Bytes()
+				if !isGrpc(ct) {
+					if rec.Code != 200 || !bytes.Equal(got, want(0)) {
+						a.fail("json-encoding-response", "%s: status %d body %s, want 200 and %s", desc, rec.Code, short(got), short(want(0)))
+					}
+					continue
+				}
+				if isText(ct) {
+					dec, err := decodeText(got)
+					if err != nil {
+						a.fail("json-encoding-response", "%s: text body does not decode: %v", desc, err)
+						continue
+					}
+					got = dec
+				}
+				frames, err := parseGrpcWeb(got)
+				if err != nil {
+					a.fail("json-encoding-response", "%s: %v", desc, err)
+					continue
+				}
+				var msgs [][]byte
+				for _, f := range frames {
+					if f.flag&0x80 == 0 {
+						msgs = append(msgs, f.data)
+					}
+				}
+				if len(msgs) != nsend {
+					a.fail("json-encoding-response", "%s: %d message frames, want %d", desc, len(msgs), nsend)
+					continue
+				}
+				for i, m := range msgs {
+					if !bytes.Equal(m, want(i)) {
+						a.fail("json-encoding-response", "%s: message %d is %s, want %s", desc, i, short(m), short(want(i)))
+						break
+					}
+				}
+			}
+		}
+	}
+	a.smp = map[string]interface{}{"batch": a.id}
+}
+
 func errorsUnderTest() map[string]error {
 	base := errors.New("boom")
 	out := map[string]error{
@@ -538,6 +697,7 @@ func gen(tier string, seed uint64) []runner.Scenario {
 	allCT := append(append([]string{}, twirpCTs...), grpcCTs...)
 	msgs := [][]byte{{}, {0}, []byte("hello"), {0xff, 0xfe, 0, 1, 2}, bytes.Repeat([]byte{0xab}, 1000), payload.Make(1, 1, 0, 0, 70000)}
 
+	add("json-encodings-and-reused-messages", jsonEncodings)
 	// 1. outcomes: content type x number of messages x message bytes x error
 	for _, ct := range allCT {
 		ct := ct
